@@ -331,13 +331,15 @@ package rapid
 //@ func reinitialize
 //@   ensures [no-recorded-error-or-runtime-identity] !has(ctxOf(execCtx.appCtx).m, appctx.AppCtxFirstFatalErrorKey) && !has(ctxOf(execCtx.appCtx).m, appctx.AppCtxRuntimeReleaseKey) && !has(ctxOf(execCtx.appCtx).m, appctx.AppCtxInvokeErrorTraceDataKey)
 //@   ensures [not-initialised] !execCtx.initDone
+// like in a freshly started context, no invocation has started: a reset now owes no runtime-done
+//@   ensures [nothing-is-owed-like-in-a-fresh-context] execCtx.invokeRuntimeDoneSent
 //@   ensures [no-renderer] execCtx.renderingService.currentState == nil
 //@   ensures [no-registrations-no-runtime] regOf(execCtx).runtime == nil && regOf(execCtx).state == core.registrationServiceOn && len(regOf(execCtx).externalAgents.byName) == 0 && len(regOf(execCtx).internalAgents.byName) == 0 && (forall k string :: !has(regOf(execCtx).externalAgents.byName, k) && !has(regOf(execCtx).externalAgents.byID, k) && !has(regOf(execCtx).internalAgents.byName, k) && !has(regOf(execCtx).internalAgents.byID, k))
 //@   ensures [no-arrival-or-cancellation-on-init-gates] gateCleared(initGates(execCtx).externalAgentsRegisteredGate) && gateCleared(initGates(execCtx).runtimeReadyGate) && gateCleared(initGates(execCtx).agentReadyGate) && gateCleared(initGates(execCtx).runtimeRestoreReadyGate)
 //@   ensures [no-arrival-or-cancellation-on-invoke-gates] gateCleared(invokeGates(execCtx).runtimeReadyGate) && gateCleared(invokeGates(execCtx).runtimeResponseGate) && gateCleared(invokeGates(execCtx).agentReadyGate)
 
 //@ func (*rapidContext).Clear
-//@   ensures [like-a-fresh-context] !r.initDone && regOf(r).runtime == nil && len(regOf(r).externalAgents.byName) == 0 && len(regOf(r).internalAgents.byName) == 0 && !has(ctxOf(r.appCtx).m, appctx.AppCtxFirstFatalErrorKey) && !has(ctxOf(r.appCtx).m, appctx.AppCtxRuntimeReleaseKey)
+//@   ensures [like-a-fresh-context] !r.initDone && r.invokeRuntimeDoneSent && regOf(r).runtime == nil && len(regOf(r).externalAgents.byName) == 0 && len(regOf(r).internalAgents.byName) == 0 && !has(ctxOf(r.appCtx).m, appctx.AppCtxFirstFatalErrorKey) && !has(ctxOf(r.appCtx).m, appctx.AppCtxRuntimeReleaseKey)
 
 // ---------------------------------------------------------------------------------------------
 // C06: a process exit or reported failure yields the right error
